@@ -366,7 +366,7 @@ void AbstractDiscreteDistribution::discretizeEqualProportions()
         secondBound = bounds_[i];
         b = Expectation(secondBound);
         values[i] = (b - a) / ec;
-        if (values[i] < firstBound || values[i] > secondBound)   // May happen if the two bounds are undistinguishable.
+        if (!(values[i] >= firstBound && values[i] <= secondBound))   // May happen if the two bounds are undistinguishable (also catches NaN).
         {
           values[i] = (firstBound + secondBound) / 2.;
         }
@@ -375,7 +375,7 @@ void AbstractDiscreteDistribution::discretizeEqualProportions()
       }
       secondBound = intMinMax_->getUpperBound();
       values[numberOfCategories_ - 1] = (Expectation(secondBound) - a) / ec;
-      if (values[numberOfCategories_ - 1] < firstBound || values[numberOfCategories_ - 1] > secondBound)   // May happen if the two bounds are undistinguishable.
+      if (!(values[numberOfCategories_ - 1] >= firstBound && values[numberOfCategories_ - 1] <= secondBound))   // May happen if the two bounds are undistinguishable (also catches NaN).
       {
         values[numberOfCategories_ - 1] = (firstBound + secondBound) / 2.;
       }
